@@ -35,7 +35,7 @@ CHECKS["C09"] = dict(
          "includes incl. nested and sub-directory, all ordered pairs/triples of seven units) is rendered with the abstractions and hand-expanded; both "
          "are assembled by naken_asm and must give the same image and label table.",
     note="The hand expansion is produced by the generator (textual substitution of whole identifiers), so arguments that make substitution ambiguous "
-         "are excluded; cases whose expansion is itself rejected are counted but not judged.")
+         "are excluded; cases whose expansion is itself rejected are counted but not judged. Also posed: 10 to 2 600 definitions with long names (several pools of the macro table), and bytes above 0x7f in bodies and arguments.")
 
 CHECKS["C10"] = dict(
     level="model_checking", design_ref="DESIGN.md 4/C10",
@@ -46,7 +46,7 @@ CHECKS["C10"] = dict(
          "and macro definitions in the branches, is assembled and compared with the reference; every structure with one directive deleted or a stray "
          ".else/.endif inserted at every position must be rejected without an output file when the reference calls it malformed.",
     note="Trusts engine/ref/cond.py (C precedence); two chained comparisons are never posed without parentheses; undefined names and non-numeric "
-         "defines occur only inside defined().")
+         "defines occur only inside defined(). Conditionals across `.include`: 4 enclosing structures (and none) x 8 included files (plain, own balanced conditionals, stray `.else` / `.endif`, unterminated `.if`).")
 
 CHECKS["C11"] = dict(
     level="model_checking", design_ref="DESIGN.md 4/C11",
@@ -57,7 +57,7 @@ CHECKS["C11"] = dict(
          "definition the scoping rules select (duplicates and undefined uses must be rejected); all .set histories of length <= 3 with uses in "
          "between; exports of global/local/undefined names checked in the ELF symbol table; 1-5000 labels with 6/30/254-character names "
          "(beyond one 32 KiB symbol pool), each referenced and exported, checked in the image, the ELF symbol table and -dump_symbols.",
-    note="Trusts the scoping model in checks/C11.py and the ELF decoder; a use of a .set symbol before its first assignment is not posed.")
+    note="Trusts the scoping model in checks/C11.py and the ELF decoder; a use of a .set symbol before its first assignment is not posed. Exported label / `.func` / label triples on avr8, lc3, propeller, ebpf, arm64, pic14, dspic (address units; 64-bit ELF class) are compared in the printed symbol table and the ELF symbol table.")
 
 CHECKS["C12"] = dict(
     level="fault_enumeration", design_ref="DESIGN.md 4/C12",
@@ -70,7 +70,7 @@ CHECKS["C12"] = dict(
          "position, for hex/bin/elf/srec with and without -l, with a stale output file planted; exit status 0 must coincide with no error "
          "diagnostic and a fresh, complete output file, any failure must leave no file, and by-construction erroneous inputs must fail.",
     note="A diagnostic is a stdout line matching \\b(Error|error)\\b; 'complete' means well-terminated for the type (contents are C03's question); "
-         "corruptions landing in untaken branches are judged for consistency only.")
+         "corruptions landing in untaken branches are judged for consistency only. CPUs without corpus lines get their seed from the decoder's renderings; corruptions include duplicate definitions and an unknown word after an instruction.")
 
 CHECKS["C13"] = dict(
     level="model_checking", design_ref="DESIGN.md 4/C13",
@@ -84,7 +84,7 @@ CHECKS["C13"] = dict(
          "written-markers are cleared between the passes (no byte of the output may come from pass-1 memory); output and listing must be identical "
          "under zero- and pattern-initialised automatic variables and heap.",
     note="Histories and the marker scrub use the library seam (probe/asmprobe.cpp mirrors main()'s two-pass flow); interactive 'asm' of naken_util "
-         "is not drivable from its CLI and is represented by that seam.")
+         "is not drivable from its CLI and is represented by that seam. Every CPU seed is also posed with an odd number of data bytes in front of the first instruction, and a program with literal control characters in strings.")
 
 CHECKS["C08"] = dict(
     level="model_checking", design_ref="DESIGN.md 4/C08",
@@ -97,14 +97,15 @@ CHECKS["C08"] = dict(
          "stack/heap; the per-CPU range disassemblers are run over images built from every length class and anomalous decode at three placements "
          "and four sub-ranges and must terminate with a strictly increasing address column that contains every instruction start.",
     note="Sanitizer findings are the first trigger per code location per cell (ASan deduplicates in recover mode); CPUs whose range printer's address "
-         "column cannot be calibrated (octal or page/offset formats) are reported unjudged; Java/WebAssembly/.NET are exempt from the upper length bound.")
+         "column cannot be calibrated (octal or page/offset formats) are reported unjudged; Java/WebAssembly/.NET are exempt from the upper length bound. The range-less walk of `naken_util -disasm` over images that cross 64 KiB page boundaries unaligned must reach every 256-byte block (4 CPUs x 4-6 image shapes).")
 
 CHECKS["C07"] = dict(
     level="model_checking", design_ref="DESIGN.md 4/C07",
     technique="exhaustive enumeration of machine-word cells through every decoder; every distinct rendering is re-assembled by the real assembler at "
               "the same address and the produced bytes are decoded again (fixpoint oracle with numeric normalisation)",
     text="For all 68 CPUs every distinct rendering the single-instruction decoders produce over the exhausted cells (65 536 values of the leading "
-         "half-word, and of the second half-word for 32-bit ISAs, x 2 (thorough 4) operand fills x 1 (3) addresses; about 5 (16) million renderings) is "
+         "half-word, and of the second half-word for 32-bit ISAs, x 2 (thorough 4) operand fills x 1 (3) addresses, plus, for one representative byte string per rendering shape and length of every CPU "
+         "(quick 60 per CPU, thorough all), all 256 values of the third and of the fourth byte; about 6 (30) million renderings) is "
          "assembled verbatim at the same address; if accepted, the emitted bytes must decode to one instruction with the same mnemonic and operands "
          "after numeric normalisation.",
     note="One assembly per distinct rendering stands for all byte strings that decode to it; 'alias -- underlying form' renderings agree if either "
@@ -133,7 +134,7 @@ CHECKS["C06"] = dict(
          "instruction's own address, register numbers 0-34/63/64/127/128/255/256; negative values also in their unsigned 32-bit spelling) is "
          "assembled; two accepted values that are not the signed/unsigned spellings of one field value must produce different bytes.",
     note="Nothing is asserted about which values must be accepted; the boundary set is closed under truncation to any width, so a value wrapped or "
-         "masked into a field collides with its in-range residue.")
+         "masked into a field collides with its in-range residue. A second oracle reads the same data for values accepted far outside the contiguously accepted range around 0 that encode like an inside value (wrapped into the field).")
 
 CHECKS["C02"] = dict(
     level="model_checking", design_ref="DESIGN.md 4/C02",
@@ -145,7 +146,7 @@ CHECKS["C02"] = dict(
          "for nine ordered pairs of kinds; each label is followed by a unique marker, and the address recorded for the label in pass 1 (the symbol "
          "table is locked in pass 2) must be the address at which the marker is placed in the pass-2 image.",
     note="Library seam (probe/asmprobe.cpp mirrors main()'s flow); the precondition of the property (no conditional or macro depending on later "
-         "symbols) holds by construction; rejected programs are counted, not judged.")
+         "symbols) holds by construction; rejected programs are counted, not judged. Reference kinds also include a `.set` symbol re-assigned further down and an odd number of data bytes directly before the instruction.")
 
 CHECKS["C03"] = dict(
     level="model_checking", design_ref="DESIGN.md 4/C03",
@@ -172,7 +173,7 @@ CHECKS["C20"] = dict(
          "symbol table = placement); unresolved symbols (direct and transitive), non-ELF, unsupported-CPU and missing files must be errors "
          "without an output file.",
     note="Objects are written by the harness's own ELF32/ar writers (from the specifications), not by a compiler; a big-endian object may be "
-         "refused as unsupported (then it must be an error).")
+         "refused as unsupported (then it must be an error). Variants 8-10: objects with a second code section named `.text.unlikely`, and a program that `.set`s the name of an unreferenced library function.")
 
 CHECKS["C19"] = dict(
     level="model_checking", design_ref="DESIGN.md 4/C19",
@@ -184,7 +185,7 @@ CHECKS["C19"] = dict(
          "spellings) must show exactly the byte map of the reference model - the written bytes at address x bytes_per_address in the CPU's byte "
          "order and every other byte unchanged; a refused (unaligned) write must change nothing and an aligned write must not be refused; the "
          "simulator must execute the instruction that was written where pc is set, and -bin -address must place a raw file where it says.",
-    note="Interactive 'asm' cannot be scripted (every source line is answered 'Unknown command'); in-process assembly histories are covered by C13.")
+    note="Interactive 'asm' cannot be scripted (every source line is answered 'Unknown command'); in-process assembly histories are covered by C13. Hex numbers are also spelled with upper-case digits; `disasm` without a range (and `-disasm`) must show every 256-byte block of images that cross page boundaries.")
 
 CHECKS["C14"] = dict(
     level="model_checking", design_ref="DESIGN.md 4/C14, Appendix A",
@@ -265,4 +266,4 @@ CHECKS["C18"] = dict(
          "the text must be the real decoder's rendering of exactly those bytes, the data-section dump must equal the output bytes, every output byte "
          "must be covered by a line or the dump, and the symbol table and low/high summary must match the run.",
     note="A CPU whose listing does not put the first instruction at the .org address in plain hex (octal agc/pdp8, page/offset tms1000/1100, "
-         "ps2_ee_vu0) is reported unjudged; upper/lower pair CPUs are not compared textually; hex-looking mnemonics are resolved by trying every split.")
+         "ps2_ee_vu0) is reported unjudged; upper/lower pair CPUs are not compared textually; hex-looking mnemonics are resolved by trying every split. Nested includes and the addresses printed on continuation lines are part of the oracle.")
